@@ -351,9 +351,6 @@ def segs : List Tok → List Tok → List (List Tok)
   | acc, [] => [acc.reverse]
   | acc, t :: r => if isSemi t then acc.reverse :: segs [] r else segs (t :: acc) r
 
-/-- a token that is neither blank, nor comment, nor `;` -/
-def isSubst (t : Tok) : Bool := !isWhite t && !isComment t && !isSemi t
-
 private theorem dropWhile_of_all {α} {p : α → Bool} {l : List α} (h : l.all p = true) : l.dropWhile p = [] := by
   induction l with
   | nil => rfl
@@ -398,9 +395,6 @@ private theorem trimWhite_nil_iff {x : List Tok} : trimWhite x = [] ↔ x.all is
     rw [List.all_reverse] at h2
     exact all_of_dropWhile_nil (dropWhile_all_nil h2)
   · intro h; simp [trimWhite, dropWhile_of_all h]
-
-/-- blank, comment or `;` -/
-def isNoise (t : Tok) : Bool := isWhite t || isComment t || isSemi t
 
 private theorem filter_noise_white {n : List Tok} (h : n.all isNoise = true) : (n.filter isCodeTok).all isWhite = true := by
   rw [List.all_filter]
@@ -586,5 +580,224 @@ theorem split_spec (ts : List Tok) :
     (splitT ts).map essence = ((segs [] ts).map essence).filter nonEmpty := by
   have := (go_spec ts).1 [] [] (by simp) (by simp)
   simpa [splitT, pieces] using this
+
+/-! ### 3. Scripts assembled from statements and separator noise -/
+
+private def isBlankish (t : Tok) : Bool := isWhite t || isComment t
+
+private theorem blankish_noise {a : List Tok} (h : a.all isBlankish = true) : a.all isNoise = true := by
+  rw [List.all_eq_true] at h ⊢
+  intro t ht; have := h t ht
+  simp_all [isBlankish, isNoise]
+
+private theorem segs_nosemi (a : List Tok) : ∀ acc x, a.all (fun t => !isSemi t) = true →
+    segs acc (a ++ x) = segs (a.reverse ++ acc) x := by
+  induction a with
+  | nil => intros; simp
+  | cons t r ih =>
+    intro acc x h
+    simp only [List.all_cons, Bool.and_eq_true, Bool.not_eq_true'] at h
+    simp only [List.cons_append, segs, h.1, Bool.false_eq_true, if_false]
+    rw [ih _ _ h.2]; simp
+
+/-- the answer of the specification from accumulator `acc` -/
+private def S (acc ts : List Tok) : List (List Tok) := ((segs acc ts).map essence).filter nonEmpty
+
+private theorem S_semi (a acc b : List Tok) (h : a.all (fun t => !isSemi t) = true) :
+    S acc (a ++ .semi :: b) = contrib (acc.reverse ++ a) ++ S [] b := by
+  unfold S
+  rw [segs_nosemi a _ _ h]
+  simp only [segs, isSemi, if_true, spec_cons, List.reverse_append, List.reverse_reverse]
+
+private theorem S_end (a acc : List Tok) (h : a.all (fun t => !isSemi t) = true) :
+    S acc a = contrib (acc.reverse ++ a) := by
+  unfold S
+  have := segs_nosemi a acc [] h
+  rw [List.append_nil] at this
+  rw [this]
+  simp only [segs, spec_cons, List.reverse_append, List.reverse_reverse, List.map_nil, List.filter_nil, List.append_nil]
+
+private theorem exists_first_semi (n : List Tok) (h : n.any isSemi = true) :
+    ∃ n1 n2, n = n1 ++ Tok.semi :: n2 ∧ n1.all (fun t => !isSemi t) = true := by
+  induction n with
+  | nil => simp at h
+  | cons t r ih =>
+    by_cases hs : isSemi t = true
+    · have : t = .semi := by cases t <;> simp_all [isSemi]
+      subst this
+      exact ⟨[], r, by simp, by simp⟩
+    · have hs' : isSemi t = false := by simpa using hs
+      simp only [List.any_cons, hs', Bool.false_or] at h
+      obtain ⟨n1, n2, e, h1⟩ := ih h
+      exact ⟨t :: n1, n2, by simp [e], by simp [hs', h1]⟩
+
+/-- noise in front of the rest of a script only produces dropped pieces -/
+private theorem S_noise (rest : List Tok) (ans : List (List Tok))
+    (hrest : ∀ acc, acc.all isBlankish = true → S acc rest = ans) (n : List Tok) :
+    ∀ acc, n.all isNoise = true → acc.all isBlankish = true → S acc (n ++ rest) = ans := by
+  induction n with
+  | nil => intro acc _ ha; simpa using hrest acc ha
+  | cons t r ih =>
+    intro acc hn ha
+    simp only [List.all_cons, Bool.and_eq_true] at hn
+    by_cases hs : isSemi t = true
+    · have : t = .semi := by cases t <;> simp_all [isSemi]
+      subst this
+      have h0 := S_semi [] acc (r ++ rest) (by simp)
+      simp only [List.nil_append, List.append_nil] at h0
+      have hn' : acc.reverse.all isNoise = true := by rw [List.all_reverse]; exact blankish_noise ha
+      rw [List.cons_append, h0, contrib_noise hn', List.nil_append]
+      exact ih [] hn.2 (by simp)
+    · have hs' : isSemi t = false := by simpa using hs
+      have hb : isBlankish t = true := by
+        have := hn.1; simp_all [isNoise, isBlankish]
+      have : S acc (t :: r ++ rest) = S (t :: acc) (r ++ rest) := by
+        simp [S, segs, hs']
+      rw [this]
+      exact ih (t :: acc) hn.2 (by simp [hb, ha])
+
+private theorem items_all_cons {p : List Tok × List Tok} {r : List (List Tok × List Tok)}
+    (h : (p :: r).all (fun p => stmtOk p.1 && p.2.all isNoise) = true) :
+    (p.1.all (fun t => !isSemi t) = true ∧ p.1.any isSubst = true) ∧ p.2.all isNoise = true ∧
+      r.all (fun p => stmtOk p.1 && p.2.all isNoise) = true := by
+  simp only [List.all_cons, Bool.and_eq_true, stmtOk] at h
+  exact ⟨h.1.1, h.1.2, h.2⟩
+
+private theorem S_body (items : List (List Tok × List Tok)) :
+    items.all (fun p => stmtOk p.1 && p.2.all isNoise) = true → sepsOk items = true →
+    ∀ acc, acc.all isBlankish = true → S acc (body items) = items.map (fun p => essence p.1) := by
+  induction items with
+  | nil =>
+    intro _ _ acc ha
+    have hn' : acc.reverse.all isNoise = true := by rw [List.all_reverse]; exact blankish_noise ha
+    have := S_end [] acc (by simp)
+    simpa [body, contrib_noise hn'] using this
+  | cons p r ih =>
+    intro hit hseps acc ha
+    obtain ⟨⟨hs1, hs2⟩, hsep, hr⟩ := items_all_cons hit
+    have hacc : acc.reverse.all isNoise = true := by rw [List.all_reverse]; exact blankish_noise ha
+    have hstmt : ∀ n1 : List Tok, n1.all isNoise = true → contrib (acc.reverse ++ (p.1 ++ n1)) = [essence p.1] := by
+      intro n1 h1
+      rw [contrib_left hacc, contrib_right h1]
+      simp [contrib, hs2]
+    by_cases hsemi : p.2.any isSemi = true
+    · obtain ⟨n1, n2, e, h1⟩ := exists_first_semi p.2 hsemi
+      have hn : n1.all isNoise = true ∧ n2.all isNoise = true := by
+        rw [e] at hsep; simp only [List.all_append, List.all_cons, Bool.and_eq_true] at hsep
+        exact ⟨hsep.1, hsep.2.2⟩
+      have hseps' : sepsOk r = true := by
+        cases r with
+        | nil => rfl
+        | cons q r' => simp only [sepsOk, Bool.and_eq_true] at hseps; exact hseps.2
+      have hshape : body (p :: r) = (p.1 ++ n1) ++ Tok.semi :: (n2 ++ body r) := by
+        simp [body, e]
+      rw [hshape, S_semi _ _ _ (by simp [List.all_append, hs1, h1]), hstmt n1 hn.1]
+      rw [S_noise (body r) (r.map (fun p => essence p.1)) (ih hr hseps') n2 [] hn.2 (by simp)]
+      simp
+    · have hsemi' : p.2.all (fun t => !isSemi t) = true := by
+        rw [List.all_eq_true]; intro t ht
+        have : p.2.any isSemi = false := by simpa using hsemi
+        rw [List.any_eq_false] at this
+        simpa using this t ht
+      have hr0 : r = [] := by
+        cases r with
+        | nil => rfl
+        | cons q r' => simp only [sepsOk, Bool.and_eq_true] at hseps; exact absurd hseps.1 hsemi
+      subst hr0
+      have hshape : body [p] = p.1 ++ p.2 := by simp [body]
+      rw [hshape, S_end _ _ (by simp [List.all_append, hs1, hsemi']), hstmt p.2 hsep]
+      simp
+
+/-- `WellFormedScript lead items`: the token list is canonical (`wf`) and inside the modelled class (`level0`); `lead` and
+    every separator consist of blanks, comments and `;` only; every statement has no top‑level `;` and contains at least
+    one token that is not a blank or a comment; every separator except the last contains a `;`.  Literal and comment
+    bodies are arbitrary — in particular they may contain any number of `;`. -/
+abbrev WellFormedScript (lead : List Tok) (items : List (List Tok × List Tok)) : Prop := scriptHyp lead items = true
+
+private theorem hyp_parts {lead : List Tok} {items : List (List Tok × List Tok)} (h : WellFormedScript lead items) :
+    wf (scriptToks lead items) = true ∧ lead.all isNoise = true ∧
+      items.all (fun p => stmtOk p.1 && p.2.all isNoise) = true ∧ sepsOk items = true := by
+  simp only [WellFormedScript, scriptHyp, Bool.and_eq_true] at h
+  exact ⟨h.1.1.1.1, h.1.1.2, h.1.2, h.2⟩
+
+/-- **split_render** — a script rendered from statements `s₁ … sₙ` with arbitrary separator noise (`;`, `;;`, blanks, line
+    and block comments containing `;`, leading / trailing blank or comment‑only pieces) is split into exactly `n` pieces,
+    in order, the `i`‑th being `sᵢ` up to comments, the `;` and outer blanks. -/
+theorem split_render (lead : List Tok) (items : List (List Tok × List Tok)) (h : WellFormedScript lead items) :
+    (splitT (lex (render (scriptToks lead items)))).map essence = items.map (fun p => essence p.1) := by
+  obtain ⟨hwf, hlead, hit, hseps⟩ := hyp_parts h
+  rw [lex_render _ hwf, split_spec]
+  exact S_noise (body items) _ (S_body items hit hseps) lead [] hlead (by simp)
+
+/-- the same for the strings `helpers.split` returns: lexing each returned piece and taking its essence gives the
+    statements' essences (the pieces are `render`ings of token lists, `render_lex` says nothing was lost) -/
+theorem split_render_strings (lead : List Tok) (items : List (List Tok × List Tok)) (h : WellFormedScript lead items) :
+    ∃ ps : List (List Tok), split (render (scriptToks lead items)) = ps.map render ∧
+      ps.map essence = items.map (fun p => essence p.1) :=
+  ⟨_, rfl, split_render lead items h⟩
+
+/-- **count_eq** — the number of statements reported is the number of statements the script was built from -/
+theorem count_eq (lead : List Tok) (items : List (List Tok × List Tok)) (h : WellFormedScript lead items) :
+    (split (render (scriptToks lead items))).length = items.length := by
+  have := congrArg List.length (split_render lead items h)
+  simpa [split] using this
+
+private theorem S_only_noise (n : List Tok) (hn : n.all isNoise = true) : S [] n = [] := by
+  have := S_noise [] [] (fun acc ha => by
+    have hn' : acc.reverse.all isNoise = true := by rw [List.all_reverse]; exact blankish_noise ha
+    have := S_end [] acc (by simp)
+    simpa [contrib_noise hn'] using this) n [] hn (by simp)
+  simpa using this
+
+/-- **empty_and_comment_only_dropped** — (1) a script made of blanks, comments and `;` only has no statements;
+    (2) in ANY script every reported piece contains a token that is not a blank, a comment or a `;`. -/
+theorem empty_and_comment_only_dropped :
+    (∀ n : List Tok, wf n = true → n.all isNoise = true → split (render n) = []) ∧
+    (∀ s : List Char, ∀ p ∈ splitT (lex s), p.any isSubst = true) := by
+  constructor
+  · intro n hwf hn
+    have h := split_spec n
+    have h0 : ((segs [] n).map essence).filter nonEmpty = [] := S_only_noise n hn
+    rw [h0] at h
+    have : splitT n = [] := by simpa using h
+    simp [split, lex_render _ hwf, this]
+  · intro s p hp
+    have hk : keep p = true := by
+      simp only [splitT, List.mem_filter] at hp; exact hp.2
+    -- the first token that is neither blank nor comment exists and is not `;`
+    unfold keep at hk
+    split at hk
+    · rename_i t ht
+      have hmem := List.mem_of_find?_eq_some ht
+      have hp' := List.find?_some ht
+      rw [List.any_eq_true]
+      refine ⟨t, hmem, ?_⟩
+      simp only [Bool.and_eq_true, Bool.not_eq_true'] at hp'
+      simp only [Bool.not_eq_true'] at hk
+      simp [isSubst, hp'.1, hp'.2, hk]
+    · simp at hk
+
+private theorem go_nosemi (s : List Tok) : ∀ cur, s.all (fun t => !isSemi t) = true →
+    go cur false s = if (s.reverse ++ cur).all isWhite = true then [] else [(s.reverse ++ cur).reverse] := by
+  induction s with
+  | nil => intro cur _; simp [go]
+  | cons t r ih =>
+    intro cur h
+    simp only [List.all_cons, Bool.and_eq_true, Bool.not_eq_true'] at h
+    simp only [go, Bool.false_and, Bool.false_eq_true, if_false, h.1, Bool.false_or]
+    rw [ih _ h.2]; simp
+
+/-- **semicolon_inside_literal_or_comment_does_not_split** — a statement without a top‑level `;` is ONE piece and comes
+    back verbatim, whatever its string literals, quoted names, `--` / `# ` line comments and block comments contain
+    (their bodies are unconstrained apart from being terminated: any number of `;`). -/
+theorem semicolon_inside_literal_or_comment_does_not_split (s : List Tok) (hwf : wf s = true) (hs : stmtOk s = true) :
+    split (render s) = [render s] := by
+  simp only [stmtOk, Bool.and_eq_true] at hs
+  have hnw : s.all isWhite = false := by
+    rcases hw : s.all isWhite with _ | _
+    · rfl
+    · have := white_no_subst hw; rw [this] at hs; simp at hs
+  have hk : keep s = true := by rw [keep_nosemi hs.1]; exact hs.2
+  simp [split, lex_render _ hwf, splitT, pieces, go_nosemi s [] hs.1, hnw, hk]
 
 end SqlLineage.Props.C05
